@@ -486,21 +486,22 @@ class GBNFCompiler:
 
         # Try to preserve simple patterns
         # Handle [a-z]+, [A-Z]+, [0-9]+, etc.
-        simple_char_class = re.match(r"^\[([^\]]+)\]([+*?]?)$", pattern)
+        simple_char_class = re.fullmatch(r"\[((?:[^\]\\\n]|\\[^\n])+)\]([+*?]?)", pattern)
         if simple_char_class:
             char_class = simple_char_class.group(1)
             quantifier = simple_char_class.group(2) or "+"
             return f"[{char_class}]{quantifier}"
 
-        # For more complex patterns, create a safe approximation
-        # Replace . with [^\\n], preserve quantifiers
-        result = pattern.replace(".", "[^\\n]")
+        # A sequence of character classes and dots with optional quantifiers is still GBNF
+        # ([a-z][0-9]+, .+, [A-Z].*): translate "." and keep the classes
+        if re.fullmatch(r"(?:(?:\[(?:[^\]\\\n]|\\[^\n])+\]|\.)[+*?]?)+", pattern):
+            return re.sub(
+                r"\[(?:[^\]\\\n]|\\[^\n])+\]|\.", lambda m: "[^\\n]" if m.group() == "." else m.group(), pattern
+            )
 
-        # If result is empty or just quantifiers, use permissive
-        if not result or result in ["+", "*", "?"]:
-            return "[^\\n]+"
-
-        return result
+        # Anything else (literals, groups, alternation, braces, escapes) is regex syntax that GBNF
+        # would read as rule references or reject: degrade to the permissive pattern
+        return "[^\\n]+"
 
     def _compile_dir(self) -> str:
         """Compile DIR constraint to path pattern."""
